@@ -322,6 +322,30 @@ pub fn gen_trainset(rng: &mut Rng) -> TrainSet {
     TrainSet { cats, seed, unk, unigram_t, bigram_t, rules, corpus, user, max_iter: 3 + rng.below(20) as u64, lambda: *rng.pick(&[0.001, 0.01, 0.05, 0.5, 50.0]) }
 }
 
+/// True if no seed/unknown/corpus/user word yields any left-word (%L) bigram feature (every BIGRAM
+/// template's left part is suppressed by an optional reference for every word). rucrf's merge then indexes
+/// its empty bigram table (known finding of C14).
+pub fn no_bigram_feature(ts: &TrainSet) -> bool {
+    let mut rows: Vec<&Vec<String>> = ts.seed.iter().map(|x| &x.1).collect();
+    rows.extend(ts.unk.iter().map(|x| &x.1));
+    rows.extend(ts.corpus.iter().flatten().map(|x| &x.1));
+    rows.extend(ts.user.iter().map(|x| &x.4));
+    for cells in rows {
+        let lf = ref_rewrite(&ts.rules[1], cells).unwrap_or_else(|| cells.clone());
+        let rf = ref_rewrite(&ts.rules[2], cells).unwrap_or_else(|| cells.clone());
+        let _ = &rf;
+        for t in &ts.bigram_t {
+            // rucrf's bigram table is indexed by the feature of the LEFT word of a pair
+            if ref_expand(&t.0, 'L', &lf, 0).is_some() {
+                return false;
+            }
+        }
+    }
+    true
+}
+
+pub const KNOWN_NO_BIGRAM: &str = "C14:write_dictionary:panic:rucrf-merge-on-empty-bigram-table:no-left-word-feature";
+
 pub fn train(ts: &TrainSet) -> Result<Model, String> {
     let r = guarded(|| -> Result<Model, String> {
         let config = TrainerConfig::from_readers(ts.seed_csv().as_bytes(), ts.char_def().as_bytes(), ts.unk_def().as_bytes(), ts.feature_def().as_bytes(), ts.rewrite_def().as_bytes()).map_err(|e| format!("config: {e}"))?;
@@ -469,14 +493,23 @@ pub fn c14_case(ctx: &mut Ctx, rng: &mut Rng) {
     let view = match guarded(|| vibrato::verif::model_view(&mut model).map_err(|e| e.to_string())).and_then(|r| r) {
         Ok(v) => v,
         Err(e) => {
-            ctx.note(format!("model_view: {e}"));
+            // the hook merges the model like the writers do; let the real writer speak
+            match generate(&mut model) {
+                Err(e2) if !bundled && no_bigram_feature(&ts) && e2.contains("rucrf") && e2.contains("the len is 0") => ctx.violation("generation_failed", KNOWN_NO_BIGRAM, format!("{e2}; no word of the training set yields any left-word (%L) bigram feature, so rucrf's bigram table is empty"), desc.clone()),
+                Err(e2) => ctx.violation("generation_failed", "C14:generation_failed", e2, desc.clone()),
+                Ok(_) => ctx.note(format!("model_view failed but generation succeeded: {e}")),
+            }
             return;
         }
     };
     let files = match generate(&mut model) {
         Ok(f) => f,
         Err(e) => {
-            ctx.violation("generation_failed", "C14:generation_failed", e, desc.clone());
+            if !bundled && no_bigram_feature(&ts) && e.contains("rucrf") && e.contains("the len is 0") {
+                ctx.violation("generation_failed", KNOWN_NO_BIGRAM, format!("{e}; no word of the training set yields any left-word (%L) bigram feature, so rucrf's bigram table is empty"), desc.clone());
+            } else {
+                ctx.violation("generation_failed", "C14:generation_failed", e, desc.clone());
+            }
             return;
         }
     };
@@ -704,6 +737,10 @@ pub fn c15_case(ctx: &mut Ctx, rng: &mut Rng) {
             return;
         }
     };
+    if !bundled && no_bigram_feature(&ts) {
+        ctx.bucket("model_without_any_bigram_feature_skipped");
+        return;
+    }
     ctx.bucket("training_succeeded");
     let user_csv = if bundled { std::fs::read_to_string(format!("{RES}/user.csv")).unwrap_or_default() } else { ts.user_csv() };
     let cmp = |ctx: &mut Ctx, what: &str, a: &Files, b: &Files, with_user: bool| -> bool {
@@ -837,6 +874,10 @@ pub fn c16_case(ctx: &mut Ctx, rng: &mut Rng) {
             return;
         }
     };
+    if !bundled && no_bigram_feature(&ts) {
+        ctx.bucket("model_without_any_bigram_feature_skipped");
+        return;
+    }
     ctx.bucket("training_succeeded");
     let k = if bundled { std::fs::read_to_string(format!("{RES}/feature.def")).unwrap_or_default().lines().filter(|l| l.trim().starts_with("BIGRAM ")).count() } else { ts.bigram_t.len() };
     let f = match generate(&mut m) {
@@ -887,7 +928,14 @@ pub fn c16_case(ctx: &mut Ctx, rng: &mut Rng) {
                 };
                 worst = worst.max((ca - cb).abs());
                 if (ca - cb).abs() > k as i64 + 1 {
-                    ctx.violation("bigram_cost_differs_from_matrix_beyond_rounding", &format!("C16:{name}:beyond_rounding"), format!("{name}: cost(right {r}, left {l}) = {cb} from the bigram files, {ca} in matrix.def; {k} bigram templates allow a difference of {}", k + 1), cj(String::new()));
+                    let detail = format!("{name}: cost(right {r}, left {l}) = {cb} from the bigram files, {ca} in matrix.def; {k} bigram templates allow a difference of {}", k + 1);
+                    if dual && dual_presum_may_exceed_i16(&f, r, l) {
+                        // the dual connector clamps its pre-summed matrix part to 16 bits (listed known finding)
+                        ctx.violation("bigram_cost_differs_from_matrix_beyond_rounding", KNOWN_DUAL_CLAMP, detail + "; some choice of (templates - 8) per-template costs of this pair sums beyond 16 bits", cj(String::new()));
+                        ctx.bucket("dual_clamp_case_seen");
+                        continue;
+                    }
+                    ctx.violation("bigram_cost_differs_from_matrix_beyond_rounding", &format!("C16:{name}:beyond_rounding"), detail, cj(String::new()));
                     return;
                 }
                 if r == 0 || l == 0 {
@@ -909,6 +957,125 @@ pub fn c16_case(ctx: &mut Ctx, rng: &mut Rng) {
     if ctx.want_sample() {
         ctx.sample(json!({"bigram_templates": k, "right_ids": nr, "left_ids": nl, "bigram.cost_lines": sorted_lines(&f.bcost).len(), "matrix_lines": sorted_lines(&f.matrix).len()}));
     }
+}
+
+pub const KNOWN_DUAL_CLAMP: &str = "C16:dual:beyond_rounding:pre-summed-part-may-exceed-16-bits";
+
+/// Per-template contributions of the pair (r, l) read from the emitted bigram files by an
+/// independent parser: could the (templates - 8) costs that the dual connector pre-sums into its
+/// 16-bit matrix exceed 16 bits for SOME choice of templates?
+pub fn dual_presum_may_exceed_i16(f: &Files, r: usize, l: usize) -> bool {
+    let (bl, br, bc) = (String::from_utf8_lossy(&f.bleft).to_string(), String::from_utf8_lossy(&f.bright).to_string(), String::from_utf8_lossy(&f.bcost).to_string());
+    let (left_rows, right_rows) = match (parse_bigram_side(&bl), parse_bigram_side(&br)) {
+        (Some(a), Some(b)) => (a, b),
+        _ => return false,
+    };
+    let mut cost: HashMap<(String, String), i64> = HashMap::new();
+    for line in bc.lines() {
+        if let Some((feat, c)) = line.split_once('\t') {
+            if let (Some((a, b)), Ok(c)) = (feat.split_once('/'), c.parse::<i64>()) {
+                cost.insert((a.to_string(), b.to_string()), c);
+            }
+        }
+    }
+    let k = left_rows.iter().chain(right_rows.iter()).map(|x| x.len()).max().unwrap_or(0);
+    if k <= 8 {
+        return false;
+    }
+    let mut contrib: Vec<i64> = vec![];
+    for p in 0..k {
+        let rf = if r == 0 { Some("") } else { right_rows.get(r - 1).and_then(|x| x.get(p)).map(|s| s.as_str()) };
+        let lf = if l == 0 { Some("") } else { left_rows.get(l - 1).and_then(|x| x.get(p)).map(|s| s.as_str()) };
+        if let (Some(a), Some(b)) = (rf, lf) {
+            if a != "*" && b != "*" {
+                contrib.push(*cost.get(&(a.to_string(), b.to_string())).unwrap_or(&0));
+                continue;
+            }
+        }
+        contrib.push(0);
+    }
+    let m = k - 8;
+    let mut pos: Vec<i64> = contrib.iter().cloned().filter(|&c| c > 0).collect();
+    let mut neg: Vec<i64> = contrib.iter().cloned().filter(|&c| c < 0).collect();
+    pos.sort_by(|a, b| b.cmp(a));
+    neg.sort();
+    pos.iter().take(m).sum::<i64>() > i16::MAX as i64 || neg.iter().take(m).sum::<i64>() < i16::MIN as i64
+}
+
+/// Known-finding witnesses of the trainer family.
+pub fn c14_witness_no_bigram_feature(ctx: &mut Ctx) {
+    let s = |x: &str| x.to_string();
+    let ts = TrainSet {
+        cats: vec![(s("DEFAULT"), false, true, 0)],
+        // no word has a left-word (%L) feature; only `b`, which never starts a sentence, has a right-word one
+        seed: vec![(s("a"), vec![s("名詞"), s("*")]), (s("b"), vec![s("動詞"), s("x")])],
+        unk: vec![(0, vec![s("記号"), s("*")])],
+        unigram_t: vec![s("U:%F[0]")],
+        bigram_t: vec![(s("B:%L?[2]"), s("B:%R?[1]"))],
+        rules: [vec![], vec![], vec![]],
+        corpus: vec![vec![(s("a"), vec![s("名詞"), s("*")]), (s("b"), vec![s("動詞"), s("x")])]],
+        // the user word brings a right-word feature into a model whose bigram table is empty
+        user: vec![(s("c"), 0, 0, 0, vec![s("動詞"), s("x")])],
+        max_iter: 5,
+        lambda: 0.01,
+    };
+    ctx.eval();
+    if let Ok(mut m) = train(&ts) {
+        let _ = guarded(|| m.read_user_lexicon(ts.user_csv().as_bytes()).map_err(|e| e.to_string()));
+        match generate(&mut m) {
+            Err(e) if e.contains("rucrf") && e.contains("the len is 0") && no_bigram_feature(&ts) => ctx.violation("generation_failed", KNOWN_NO_BIGRAM, format!("{e}; no word of the training set yields any left-word (%L) bigram feature, so rucrf's bigram table is empty"), ts.texts()),
+            Err(e) => ctx.violation("generation_failed", "C14:generation_failed", e, ts.texts()),
+            Ok(_) => ctx.bucket("witness_no_bigram_feature_ok"),
+        }
+    }
+}
+
+pub fn c16_witness_dual_clamp(ctx: &mut Ctx) {
+    // hand-made "emitted" files: 10 templates, per-template costs of +-20000 that cancel out, so that
+    // matrix.def holds 0 for every pair while any two equal-signed templates pre-sum beyond 16 bits
+    let k = 10;
+    let n = 12;
+    let mut left = String::new();
+    let mut right = String::new();
+    let mut cost = String::new();
+    for id in 1..=n {
+        // id's sign pattern: template p is positive iff bit p of a per-id mask is set (five of ten)
+        let cells = |side: &str| -> String { (0..k).map(|p| format!("{side}{p}_{}", if (crate::rng::mix((id * 131 + p * 7919 + side.len()) as u64 + if side == "r" { 0 } else { 977 }) >> 7) & 1 == 0 { "P" } else { "N" })).collect::<Vec<_>>().join(",") };
+        right += &format!("{id}\t{}\n", cells("r"));
+        left += &format!("{id}\t{}\n", cells("l"));
+    }
+    for p in 0..k {
+        for (a, b, c) in [("P", "P", 20000), ("N", "N", 20000), ("P", "N", -20000), ("N", "P", -20000)] {
+            cost += &format!("r{p}_{a}/l{p}_{b}\t{c}\n");
+        }
+    }
+    let lex = "a,1,1,0,A\n";
+    let conn_raw = ConnTexts::Bigram { right: right.clone().into_bytes(), left: left.clone().into_bytes(), cost: cost.clone().into_bytes(), dual: false };
+    let conn_dual = ConnTexts::Bigram { right: right.clone().into_bytes(), left: left.clone().into_bytes(), cost: cost.clone().into_bytes(), dual: true };
+    let (raw, dual) = match (build_from_texts(lex.as_bytes(), b"DEFAULT 0 1 0\n", b"DEFAULT,0,0,0,U\n", &conn_raw), build_from_texts(lex.as_bytes(), b"DEFAULT 0 1 0\n", b"DEFAULT,0,0,0,U\n", &conn_dual)) {
+        (BuildOutcome::Ok(a), BuildOutcome::Ok(b)) => (a, b),
+        _ => {
+            ctx.note("C16 witness: dictionaries not built".into());
+            return;
+        }
+    };
+    ctx.eval();
+    let f = Files { bleft: left.into_bytes(), bright: right.into_bytes(), bcost: cost.into_bytes(), ..Default::default() };
+    for r in 1..=n {
+        for l in 1..=n {
+            let a = vibrato::verif::conn_cost(&raw, r as u16, l as u16) as i64;
+            let b = vibrato::verif::conn_cost(&dual, r as u16, l as u16) as i64;
+            if (a - b).abs() > k as i64 + 1 && a.abs() <= i16::MAX as i64 {
+                if dual_presum_may_exceed_i16(&f, r, l) {
+                    ctx.violation("bigram_cost_differs_from_matrix_beyond_rounding", KNOWN_DUAL_CLAMP, format!("dual: cost(right {r}, left {l}) = {b}, the sum of the listed per-template costs (what matrix.def holds) is {a}; ten templates of +-20000"), json!({"witness": "c16_witness_dual_clamp"}));
+                } else {
+                    ctx.violation("bigram_cost_differs_from_matrix_beyond_rounding", "C16:dual:beyond_rounding", format!("witness pair ({r},{l}): {b} vs {a}"), json!({"witness": "c16_witness_dual_clamp"}));
+                }
+                return;
+            }
+        }
+    }
+    ctx.bucket("witness_dual_clamp_not_reproduced");
 }
 
 // ---------------------------------------------------------------- C17
@@ -1229,6 +1396,10 @@ fn c18_dictionary(ctx: &mut Ctx, rng: &mut Rng) {
             return;
         }
     };
+    if no_bigram_feature(&ts) {
+        ctx.bucket("model_without_any_bigram_feature_skipped");
+        return;
+    }
     ctx.bucket("training_succeeded");
     // half of the cases: the model goes through write_model/read_model first (as `dictgen` does),
     // and a user lexicon with new feature strings is registered afterwards
